@@ -7,6 +7,7 @@ void h_admit(void)
 {
   g_key_ok = 0; g_pow_ok = 0; g_same_key = 0; g_same_nonce = 0; g_penalised = 0; g_session_writes = 0; g_ph_result = 0;
   g_cached_success = nondet_bool();
+  g_stored_success = g_cached_success; g_stored_valid = 1; g_local_success = 0; g_local_valid = 0;   /* invariant assumed on entry */
   skel_Node__handle_transport_handshake();
   CANARY_POINT();
 }
@@ -14,6 +15,7 @@ void h_perform(void)
 {
   g_key_ok = 0; g_pow_ok = 0; g_same_key = 0; g_same_nonce = 0; g_penalised = 0; g_session_writes = 0; g_ph_result = 0;
   g_cached_success = nondet_bool();
+  g_stored_success = g_cached_success; g_stored_valid = 1; g_local_success = 0; g_local_valid = 0;   /* invariant assumed on entry */
   skel_Node__perform_handshake();
   CANARY_POINT();
 }
